@@ -17,7 +17,7 @@ ANCHOR_FILES = [
 ]
 RULE = (
     "seeded cases: obj (ObjectPixelated.from_array with hostile raw values 1e-6..1e6 / zeros / boundary values, 1-5 slices, odd shapes, object type x constraint dict "
-    "{positivity, fix_potential_baseline(+factor), identical_slices, apply_fov_mask} x mask {none, binary, fractional} x {float32 via .obj, float64 via apply_hard_constraints}), "
+    "{positivity, fix_potential_baseline(+factor), identical_slices, apply_fov_mask} x mask {none, binary, fractional; 2-D or a different (S,H,W) mask per slice} x {float32 via .obj, float64 via apply_hard_constraints}), "
     "dip (ObjectDIP.obj on the output of a one-layer network with hostile weights, complex / real-valued pure phase / potential), tomo (tomography ObjectVoxelwise positivity/shrinkage), orth (1-5 modes, pairwise correlation 0..0.99, intensity ratios 1e-4..1e4, complex128 and complex64, direct call and "
     "probe_model.probe), weights (from_array / from_params + set_initial_probe with requested weights 1e-3..1 and mean intensities 1e-2..1e8, read through initial_probe) and "
     "probe_hist (one ProbePixelated model, 6-12 steps under torch.no_grad() and with grad: read / public probe setter with another stack / reset() / set_initial_probe / optimizer step / toggling "
@@ -94,6 +94,17 @@ def _mask_real(mask):
     return (m.real if m.is_complex() else m).double()
 
 
+def make_mask(rng, shape2d, kind, slices=1):
+    """fov mask in [0,1]: binary or fractional; slices > 1 -> a per-slice (S,H,W) mask (accepted by the public mask setter)."""
+    shp = tuple(shape2d) if slices <= 1 else (int(slices),) + tuple(shape2d)
+    m = rng.random(shp)
+    if kind == "binary":
+        return (m > 0.4).astype(np.float32)
+    m[rng.random(shp) < 0.3] = 1.0
+    m[rng.random(shp) < 0.1] = 0.0
+    return m.astype(np.float32)
+
+
 def judge_object(ctx, model, raw, mask, out, where, idempotence=True, **extra):
     """Postconditions of ObjectConstraints.apply_hard_constraints(raw, mask) -> out for model's declared type / constraint dict."""
     import torch
@@ -115,7 +126,8 @@ def judge_object(ctx, model, raw, mask, out, where, idempotence=True, **extra):
         tol = TOL32 if single else TOL64
         prec = "single" if single else "double"
         mk = "none" if mreal is None else ("binary" if bool(((mreal == 0) | (mreal == 1)).all()) else "fractional")
-        f = dict(where=where, obj_type=ot, precision=prec, mask=mk, tied=tied, baseline=bool(c.get("fix_potential_baseline")), **extra)
+        per_slice = bool(mreal is not None and mreal.ndim == 3 and mreal.shape[0] > 1 and bool((mreal != mreal[:1]).any()))
+        f = dict(where=where, obj_type=ot, precision=prec, mask=mk, mask_per_slice=per_slice, tied=tied, baseline=bool(c.get("fix_potential_baseline")), **extra)
         if not ctx.check(tuple(out.shape) == tuple(raw.shape) and _finite_t(out), "constrained_object_malformed", "shape %s -> %s, finite=%s" % (tuple(raw.shape), tuple(out.shape), _finite_t(out)), **f):
             return None
         nontrivial = False
@@ -301,13 +313,10 @@ def _run_obj(spec, idx, ctx):
             cons["fix_potential_baseline"] = True
             cons["fix_potential_baseline_factor"] = float(rng.choice([1.0, 1.0, 0.5, 1.5]))
     mask = None
+    per_slice = False
     if mk != "none":
-        mask = rng.random((H, W))
-        if mk == "binary":
-            mask = (mask > 0.4).astype(np.float64)
-        else:
-            mask[rng.random((H, W)) < 0.3] = 1.0
-            mask[rng.random((H, W)) < 0.1] = 0.0
+        per_slice = S > 1 and rng.random() < 0.5  # a different mask for every slice
+        mask = make_mask(rng, (H, W), mk, S if per_slice else 1)
         cons["apply_fov_mask"] = bool(rng.random() < 0.8)
     thick = float(rng.uniform(1, 20)) if S > 1 else None
     m = st["om"].ObjectPixelated.from_array(raw.astype(np.float32 if ot == "potential" else np.complex64), slice_thicknesses=thick, obj_type=ot, rng=int(rng.integers(1 << 30)))
@@ -325,8 +334,8 @@ def _run_obj(spec, idx, ctx):
     mk_t = m.mask if m.mask.numel() else None
     res.append(judge_object(ctx, m, x64, mk_t, m.apply_hard_constraints(x64, mask=mk_t), where="direct"))
     nt = any(r and r["nontrivial"] for r in res)
-    ctx.nontrivial(("obj", ot, key, mk, min(S, 3)), nt)
-    ctx.observe(obj_type=ot, shape=[S, H, W], constraints=cons, mask=mk, raw_absmax=float(np.abs(raw).max()), raw_absmin=float(np.abs(raw).min()))
+    ctx.nontrivial(("obj", ot, key, mk + ("/slice" if per_slice else ""), min(S, 3)), nt)
+    ctx.observe(obj_type=ot, shape=[S, H, W], constraints=cons, mask=mk, mask_per_slice=bool(per_slice), raw_absmax=float(np.abs(raw).max()), raw_absmin=float(np.abs(raw).min()))
 
 
 def _run_tomo(spec, idx, ctx):
@@ -364,7 +373,7 @@ def _run_orth(spec, idx, ctx):
     i = spec["i"]
     M = 1 + i % 5
     h, w = int(rng.integers(4, 25)), int(rng.integers(4, 25))
-    corr = float([0.0, 0.3, 0.5, 0.9, 0.99, 0.7][(i // 5) % 6]) if M > 1 else 0.0
+    corr = float([0.0, 0.3, 0.5, 0.9, 0.99, 0.7, 1e-4, 3e-4][(i // 5) % 8]) if M > 1 else 0.0  # (incl. nearly orthogonal stacks: a warm start from an earlier result)
     p = ins.correlated_modes(rng, M, (h, w), corr, ratios_decades=4.0)
     p = p * 10.0 ** rng.uniform(-2, 2)
     pm = st["pm"].ProbePixelated.from_array(p.astype(np.complex64), rng=int(rng.integers(1 << 30)))
@@ -463,6 +472,14 @@ def _run_insitu(spec, idx, ctx):
         tot0 = float((np.abs(np.fft.fft2(ip, norm="ortho")) ** 2).sum())
         ctx.close(tot0 / mean_I - 1, 1e-4, "initial_probe_total_intensity", lambda: "total diffraction intensity of probe_model.initial_probe %.6g vs mean pattern sum of the measured data %.6g" % (tot0, mean_I),
                   where="insitu_public", modes=M, precision="single")
+        mask3d = None
+        if S > 1 and rng.random() < 0.4:
+            # a per-slice field-of-view mask installed through the public setter, combined with slice tying and the fov constraint
+            mask3d = "binary" if rng.random() < 0.5 else "fractional"
+            pt.obj_model.mask = make_mask(rng, tuple(int(v) for v in pt.obj_model.shape[-2:]), mask3d, S)
+            oc["apply_fov_mask"] = True
+            if rng.random() < 0.7:
+                oc["identical_slices"] = True
         st["live"] = L
         J = pt.dset.num_gpts
         bs = int(rng.integers(max(1, J // 4), J + 1))
@@ -488,7 +505,7 @@ def _run_insitu(spec, idx, ctx):
     raw = _np(pt.obj_model._obj)
     judged = L.get("obj_events", 0) + L.get("orth_events", 0) + L.get("public_obj", 0)
     ctx.nontrivial(("insitu", ot, ",".join(sorted(oc)), S, M, opt), judged > 0 and (L.get("obj_nontrivial", 0) + L.get("orth_nontrivial", 0)) > 0)
-    ctx.observe(scene=sc.describe(), object_constraints=oc, optimizer=opt, lr=[lr_o, lr_p], batch=bs, autograd=bool(autograd), events={k: v for k, v in L.items() if k != "where"},
+    ctx.observe(scene=sc.describe(), object_constraints=oc, per_slice_mask=mask3d, optimizer=opt, lr=[lr_o, lr_p], batch=bs, autograd=bool(autograd), events={k: v for k, v in L.items() if k != "where"},
                 final_raw_absmax=float(np.abs(raw).max()) if np.isfinite(raw).all() else "non-finite", losses=[float(x) for x in pt.iter_losses[-3:]])
 
 
@@ -524,12 +541,11 @@ def _run_dip(spec, idx, ctx):
     mkind = "none"
     if rng.random() < 0.5:
         mkind = "binary" if rng.random() < 0.5 else "fractional"
-        mask = rng.random((H, W))
-        if mkind == "binary":
-            mask = (mask > 0.4).astype(np.float64)
+        if S > 1 and rng.random() < 0.5:
+            m.mask = make_mask(rng, (H, W), mkind, S)
+            mkind += "/slice"
         else:
-            mask[rng.random((H, W)) < 0.3] = 1.0
-        m.mask = mask.astype(np.float32)
+            m.mask = make_mask(rng, (H, W), mkind)
         cons["apply_fov_mask"] = True
     m.constraints = cons
     with torch.no_grad():
@@ -555,7 +571,7 @@ def _run_probe_hist(spec, idx, ctx):
     M = 1 + i % 5
     h, w = int(rng.integers(4, 21)), int(rng.integers(4, 21))
     nograd = (i // 5) % 3 != 2  # two thirds of the cases read the way logging / plotting / saving code does
-    corrs = [0.0, 0.3, 0.5, 0.9, 0.99, 0.7]
+    corrs = [0.0, 0.3, 0.5, 0.9, 0.99, 0.7, 1e-4, 3e-4]
 
     def stack():
         c = float(corrs[int(rng.integers(len(corrs)))]) if M > 1 else 0.0
@@ -585,8 +601,16 @@ def _run_probe_hist(spec, idx, ctx):
         read()
         steps.append("read")
         for _ in range(n_steps):
-            op = ["set", "set", "set", "reset", "init", "step", "toggle_orth", "toggle_center", "flip_grad"][int(rng.integers(9))]
-            if op == "set":
+            op = ["set", "set", "set", "warm_start", "reset", "init", "step", "toggle_orth", "toggle_center", "flip_grad"][int(rng.integers(10))]
+            if op == "warm_start":
+                # the constrained probe of this model (or its raw stack when the constraints are off) handed back through the setter,
+                # nudged the way a few optimiser steps would: nearly, not exactly, orthogonal raw modes
+                prev = _np(pm.probe).astype(np.complex128)
+                scale = np.sqrt((np.abs(prev) ** 2).mean())
+                eps = float(10.0 ** rng.uniform(-5, -3))
+                pm.probe = (prev + eps * scale * (rng.normal(size=prev.shape) + 1j * rng.normal(size=prev.shape))).astype(np.complex64)
+                last_write = "warm_start"
+            elif op == "set":
                 new = stack()
                 pm.probe = new if rng.random() < 0.5 else torch.tensor(new)
                 last_write = "probe_setter"
@@ -673,8 +697,7 @@ def _run_obj_hist(spec, idx, ctx):
         m.reset()
     cons = {"identical_slices": bool(rng.random() < 0.75)}
     if rng.random() < 0.4:
-        mask = (rng.random((H, W)) > 0.4).astype(np.float32) if rng.random() < 0.5 else np.clip(rng.random((H, W)) * 1.5, 0, 1).astype(np.float32)
-        m.mask = mask
+        m.mask = make_mask(rng, (H, W), "binary" if rng.random() < 0.5 else "fractional", S if (S > 1 and rng.random() < 0.6) else 1)
         cons["apply_fov_mask"] = True
     m.constraints = cons
     steps, raised, judged, nontriv = [], 0, 0, False
@@ -717,6 +740,7 @@ def _run_obj_hist(spec, idx, ctx):
         "toggle_identical": (lambda: m.add_constraint("identical_slices", not m.constraints["identical_slices"]), False),
         "forward": (lambda: m.forward(torch.tensor(rng.integers(0, H * W, size=(2, 3, 3)))), False),
         "reset": (lambda: m.reset(), False),
+        "set_mask": (lambda: (setattr(m, "mask", make_mask(rng, (H, W), "binary" if rng.random() < 0.5 else "fractional", S if (S > 1 and rng.random() < 0.6) else 1)), m.add_constraint("apply_fov_mask", True)), False),
     }
     if S > 1:
         common["slice_thicknesses_bad"] = (lambda: setattr(m, "slice_thicknesses", [1.0] * (S + 2)), True)
